@@ -174,6 +174,8 @@ class Ctx:
         env = dict(os.environ, VERIF_MODE=mode, VERIF_SEED=str(seed if seed is not None else self.seed), VERIF_N=str(n),
                    VERIF_OUT=outdir, VERIF_FACTS=os.path.join(BUILD, "facts.json"), VERIF_DATA=outdir)
         env.update(extra or {})
+        if os.environ.get("VERIF_HARNESS_TIMEOUT"):   # mutation scans: a hang is a detection, do not wait long for it
+            timeout = min(timeout, int(os.environ["VERIF_HARNESS_TIMEOUT"]))
         rc, out, dt = sh([exe, "-test.run", "^TestVerifHarness$", "-test.timeout", f"{timeout}s", "-test.count=1"], cwd=outdir, env=env, timeout=timeout + 30)
         if not str(seed).startswith("shrink"):
             log(f"harness {mode} n={n} rc={rc} {dt:.1f}s")
